@@ -27,7 +27,8 @@ META = {
              ', piecewise-constant and fingerprint-colliding labels, desti'
              'nation compressed_segmentation files decoded from the format'
              ' description, a warm-up on a uint32 segmentation in the same'
-             ' process.'),
+             ' process.'
+             " Round 12: regular label structure; the library function after an earlier sharded conversion in the same process, default options omitted."),
     "trusted_base": ["vlib/refs/dtype_ref.py", "vlib/httpd.py",
                      "in-memory source arrays"],
 }
